@@ -4,6 +4,7 @@ import (
 	"fmt"
 	"go/token"
 	"go/types"
+	"sort"
 	"strings"
 
 	"golang.org/x/tools/go/ssa"
@@ -758,4 +759,224 @@ func ruleKVFind(c *Ctx, rule string, names ...string) {
 		}
 		c.check(good, rule, name+"/kv-find", w.pos(fn.Pos()), "takes the first entry whose Key equals the wanted name, whatever its value", name+" does not simply take the first entry whose key matches ("+why+"): a parameter that is present (e.g. a valueless ;rport or ;lr) is reported absent, or a later duplicate wins")
 	}
+}
+
+// ---------- shared helper: structural keys for comparing sibling functions ----------
+
+// shapeKey renders a value as a term over parameters (by index), constants, library/package calls and slicing, with
+// no instruction numbers, so that the same computation in two sibling functions gives the same text.
+func (w *World) shapeKey(v ssa.Value, depth int, seen map[ssa.Value]bool) string {
+	if v == nil {
+		return "_"
+	}
+	v = strip(v)
+	if depth > 8 {
+		return "…"
+	}
+	if seen[v] {
+		return "loop"
+	}
+	switch x := v.(type) {
+	case *ssa.Const:
+		if s, ok := constString(x); ok {
+			return fmt.Sprintf("%q", s)
+		}
+		if k, ok := constInt(x); ok {
+			return fmt.Sprint(k)
+		}
+		return x.Value.String()
+	case *ssa.Parameter:
+		for i, p := range x.Parent().Params {
+			if p == x {
+				return fmt.Sprintf("p%d", i)
+			}
+		}
+		return "p?"
+	case *ssa.BinOp:
+		return "(" + w.shapeKey(x.X, depth+1, seen) + x.Op.String() + w.shapeKey(x.Y, depth+1, seen) + ")"
+	case *ssa.Slice:
+		return w.shapeKey(x.X, depth+1, seen) + "[" + w.shapeKey(x.Low, depth+1, seen) + ":" + w.shapeKey(x.High, depth+1, seen) + "]"
+	case *ssa.Extract:
+		return w.shapeKey(x.Tuple, depth+1, seen) + "#" + fmt.Sprint(x.Index)
+	case *ssa.Call:
+		name := w.calleeName(x)
+		switch name {
+		case "strings.IndexByte", "strings.Index", "strings.IndexRune":
+			name = "index"
+		case "strings.LastIndexByte", "strings.LastIndex":
+			name = "lastindex"
+		}
+		var as []string
+		for _, a := range x.Call.Args {
+			if b, ok := constByte(a); ok {
+				as = append(as, fmt.Sprintf("%q", string(b)))
+				continue
+			}
+			as = append(as, w.shapeKey(a, depth+1, seen))
+		}
+		return name + "(" + strings.Join(as, ",") + ")"
+	case *ssa.Phi:
+		seen[v] = true
+		var es []string
+		for _, e := range x.Edges {
+			es = append(es, w.shapeKey(e, depth+1, seen))
+		}
+		delete(seen, v)
+		sort.Strings(es)
+		return "phi(" + strings.Join(es, "|") + ")"
+	case *ssa.UnOp:
+		if x.Op == token.MUL {
+			if fa, ok := x.X.(*ssa.FieldAddr); ok {
+				return w.shapeKey(fa.X, depth+1, seen) + "." + fieldName(fa.X.Type(), fa.Field)
+			}
+			return "*" + w.shapeKey(x.X, depth+1, seen)
+		}
+		return x.Op.String() + w.shapeKey(x.X, depth+1, seen)
+	case *ssa.Alloc:
+		return "new"
+	case *ssa.Convert:
+		return w.shapeKey(x.X, depth+1, seen)
+	}
+	return fmt.Sprintf("%T", v)
+}
+
+// callShapes: the multiset of "callee(argument shapes)" over the calls of fn to the named callees.
+func (w *World) callShapes(fn *ssa.Function, callees ...string) []string {
+	var out []string
+	for _, cs := range w.callsIn(fn, callees...) {
+		var as []string
+		for _, a := range cs.In.Common().Args {
+			as = append(as, w.shapeKey(a, 0, map[ssa.Value]bool{}))
+		}
+		out = append(out, cs.Name+"("+strings.Join(as, ", ")+")")
+	}
+	sort.Strings(out)
+	return out
+}
+
+// ---------- shared rule: package types printed through fmt have a String method in the printed type's method set ----------
+
+// ruleFmtStringer: every operand of a package struct type (or pointer to one) handed to a fmt print call is printed by
+// its own String/Error method: the method set of the operand's static type must contain it. A value of a type whose
+// String has a pointer receiver falls back to fmt's default struct rendering ({key value}).
+func ruleFmtStringer(c *Ctx, rule string) {
+	w := c.w
+	n := 0
+	per := map[string]int{}
+	for _, fn := range w.All {
+		for _, cs := range w.callsIn(fn) {
+			if !strings.HasPrefix(cs.Name, "fmt.") {
+				continue
+			}
+			for _, a := range cs.In.Common().Args {
+				for _, v := range append(varargs(a), a) {
+					if v == nil {
+						continue
+					}
+					v = strip(v)
+					t := v.Type()
+					if _, isIface := t.Underlying().(*types.Interface); isIface {
+						continue
+					}
+					if !w.isMainType(t) {
+						continue
+					}
+					el := t
+					if p, ok := t.(*types.Pointer); ok {
+						el = p.Elem()
+					}
+					if _, isStruct := el.Underlying().(*types.Struct); !isStruct {
+						continue
+					}
+					n++
+					ms := w.Prog.MethodSets.MethodSet(t)
+					has := ms.Lookup(nil, "String") != nil || ms.Lookup(nil, "Error") != nil || ms.Lookup(w.Main.Pkg, "String") != nil
+					if !has {
+						per[w.fname(fn)]++
+						c.Fns[w.fname(fn)] = true
+						c.bad(rule, fmt.Sprintf("%s/fmt-operand#%d", w.fname(fn), per[w.fname(fn)]), w.ipos(cs.In), "a value of type "+types.TypeString(t, types.RelativeTo(w.Main.Pkg))+" is printed through "+cs.Name+", but that type's method set has no String method (pointer receiver?): fmt falls back to its default struct rendering and the encoded header contains {...} instead of the parameter text")
+					}
+				}
+			}
+		}
+	}
+	if n < 6 {
+		c.undecided(rule, "fmt-operands/floor", "-", fmt.Sprintf("only %d package values printed through fmt found (expected >= 6)", n))
+	} else {
+		c.ok(rule, "package/fmt-operands", "-", fmt.Sprintf("%d operands of package struct types printed through fmt inspected", n))
+	}
+}
+
+// ---------- shared rule: GetHeader returns the first header, in list order, that the comparator accepts ----------
+
+// ruleHeaderFind: (*Message).GetHeader walks m.headers once, front to back, and returns the current element at the
+// first one for which isSameHeader(element.name, name) holds - on no other condition, in no second pass. The top Via
+// (and the top Route, the first Content-Length ...) is then the first line whatever spelling it uses.
+func ruleHeaderFind(c *Ctx, rule string) {
+	w := c.w
+	f := w.Fn("(*Message).GetHeader")
+	if f == nil {
+		c.undecided(rule, "GetHeader/first-match", "-", "(*Message).GetHeader not found")
+		return
+	}
+	c.Fns["(*Message).GetHeader"] = true
+	var loops []*rangeLoop
+	for _, rl := range rangeLoops(f) {
+		if ref, base := loadedField(rl.Over); ref == "Message.headers" && isParam(f, base, 0) {
+			loops = append(loops, rl)
+		}
+	}
+	good := len(loops) == 1 && len(rangeLoops(f)) == 1
+	why := fmt.Sprintf("%d walks over m.headers", len(loops))
+	if good {
+		rl := loops[0]
+		bound := w.atom(rl.If.Cond).Key
+		same := func(a Atom) bool {
+			if a.Kind != "bool" {
+				return false
+			}
+			cc := w.resultOfCallTo(a.X, "(*Message).isSameHeader", 0)
+			if cc == nil {
+				return false
+			}
+			b, ok := isLoadOf(callArg(cc, 0), "Header.name")
+			return ok && rl.isElem(b) && isParam(f, callArg(cc, 1), 1)
+		}
+		atoms := map[string]Atom{}
+		for _, a := range w.atomsOf(f) {
+			atoms[a.Key] = a
+		}
+		nExit := 0
+		for _, r := range returnsUnder(f, nil) {
+			if !rl.Body.Dominates(r.Block()) {
+				// after the walk: nothing found
+				if !allVals(phiLeaves(r.Results[0]), isNilConst) || !allVals(phiLeaves(r.Results[1]), w.isFreshError) {
+					good, why = false, "after the walk something other than (nil, error) is returned"
+				}
+				continue
+			}
+			nExit++
+			if !rl.isElem(r.Results[0]) || !isNilConst(r.Results[1]) {
+				good, why = false, "the early exit does not return the current element"
+			}
+			nSame := 0
+			for k, val := range w.controlAtoms(f, r) {
+				if k == bound {
+					continue
+				}
+				if same(atoms[k]) && val {
+					nSame++
+					continue
+				}
+				good, why = false, "the match additionally depends on "+k
+			}
+			if nSame != 1 {
+				good, why = false, "the early exit is not conditioned on isSameHeader(element.name, name)"
+			}
+		}
+		if nExit != 1 {
+			good, why = false, fmt.Sprintf("%d early exits", nExit)
+		}
+	}
+	c.check(good, rule, "GetHeader/first-match", w.pos(f.Pos()), "the first header line the comparator accepts is returned", "GetHeader does not return the first header, in list order, accepted by isSameHeader ("+why+"): with mixed spellings (v: above Via:) the 'top' Via/Route is no longer the first line, so the wrong entry is stamped, popped or used as the response hop")
 }
